@@ -359,7 +359,8 @@ class OpGen:
             c = self.cmap[ispec['cls']]
             props = dict(ispec['props'])
             for p in mg.all_props(self.cmap, c['name']):
-                if not p['key'] and r.random() < 0.5:
+                if not p['key'] and p['type'] != 'reference' and \
+                        r.random() < 0.5:
                     props[p['name']] = mg.gen_value(
                         r, p['type'], p.get('array', False), 0.2)
             if r.random() < 0.05 and not self.valid_only:
